@@ -147,6 +147,8 @@ fn advance_search_along_ray(section: &Curve2, last_station: &InscribedCircle) ->
     // radius, we will consider the search to have advanced.
     let mut frac = 0.25;
     while frac > 0.05 {
+        #[cfg(feature = "verif")]
+        crate::verif_hooks::tick("camber::advance_search_along_ray");
         let next_center = camber_point.at_distance(frac * last_station.radius());
         let test_dir = rot90(Ccw) * camber_point.normal;
         let test_ray = Ray::new(next_center, test_dir.into_inner());
@@ -211,6 +213,8 @@ fn extract_half_camber_line(
     let mut ray = starting_ray.clone();
 
     loop {
+        #[cfg(feature = "verif")]
+        crate::verif_hooks::tick("camber::extract_half_camber_line");
         let circle = inscribed_from_spanning_ray(curve, &ray, inner_tol);
         refine_stack.push(circle);
 
